@@ -357,6 +357,22 @@ class ConstEval:
                 return {"int": int, "float": float, "complex": complex, "bool": bool, "str": str}[e.id]
             if isinstance(t, str) and t in EXTERNAL_VALUES:
                 return EXTERNAL_VALUES[t]
+            # a module-level constant: bound exactly once at module level to a constant expression
+            mod = f.module
+            if e.id in mod.assigns:
+                nb = sum(1 for st in mod.tree.body if isinstance(st, (ast.Assign, ast.AnnAssign, ast.AugAssign))
+                         for tg in (st.targets if isinstance(st, ast.Assign) else [st.target]) if isinstance(tg, ast.Name) and tg.id == e.id)
+                cache = self.__dict__.setdefault("_modconst", {})
+                key = (mod.name, e.id)
+                if nb == 1:
+                    if key not in cache:
+                        cache[key] = None
+                        try:
+                            cache[key] = ("ok", self.expr(mod.assigns[e.id], {}, f, depth))
+                        except NotConst as ex:
+                            cache[key] = ("no", str(ex))
+                    if cache[key] and cache[key][0] == "ok":
+                        return cache[key][1]
             raise NotConst("name %s is not a constant here" % e.id)
         if isinstance(e, (ast.List, ast.Tuple)):
             vs = [self.expr(x, env, f, depth) for x in e.elts]
